@@ -27,7 +27,7 @@ typedef struct { short len, npts, i, alt; unsigned char ch[MAXPTS], ne[MAXPTS], 
 typedef struct {
     int depth; frame_t fr[MAXDEPTH];
     int in_exec; int cur_len; unsigned char cur_prefix[MAXPTS];
-    long executions, choice_points, steps, violations, lost_subtrees, maxpts, deaths;
+    long executions, choice_points, steps, violations, lost_subtrees, maxpts, deaths, lib_aborts; int have_ref, ref_info;
     long sched_rets, regular_panels, pipelined_panels, waits_blocked;
     long conf_execs_ok, conf_events, conf_divergences, conf_execs_unmodelled; char conf_msg[300];
     unsigned long long outcomes[256]; int noutc;
@@ -411,6 +411,7 @@ static void run_once(void) {
     } else if (mr.num_nonsing && mr.cond1 < 1e6L) {
         mon_viol("C01:info", "nonsingular input but info=%d", RES.info);
     }
+    if (X->have_ref && RES.info != X->ref_info && RES.info <= n && X->ref_info <= n) mon_viol("C06:info-schedule-dependent", "info=%d in this execution, %d with one thread", RES.info, X->ref_info);
     if (RES.slot_overflow) mon_viol("C05:slot", "%s", RES.slotmsg);
     if (RES.leak_blocks) mon_viol("C17:leak", "%d blocks still allocated after destroying the returned objects: %s", RES.leak_blocks, RES.leak_desc);
     for (int i = 0; i < npend; i++) if (prop_wants(pend[i].sig)) report(pend[i].sig, pend[i].msg);
@@ -434,6 +435,19 @@ static void push_frame(int len) {
     frame_t *f = &X->fr[X->depth++];
     f->len = (short)len; f->npts = (short)npts; f->i = (short)len; f->alt = 1;
     memcpy(f->ch, choice, npts); memcpy(f->ne, nenab, npts); memcpy(f->co, cost_at, npts); memcpy(f->re, run_en, npts);
+}
+/* the library's abort path (SUPERLU_ABORT -> exit) ends the execution: it is counted as an execution with outcome "abort", its choice
+   points are pushed like those of any other execution, and the explorer process ends with code 94; the supervisor forks a new explorer
+   that continues from the shared stack.  Nothing of the schedule tree is lost. */
+void vf_lib_exit(int code) {
+    (void)code;
+    pthread_mutex_lock(&big);
+    X->executions++; X->lib_aborts++; X->choice_points += npts; if (npts > X->maxpts) X->maxpts = npts;
+    for (int i = 0; i < npend; i++) if (prop_wants(pend[i].sig)) report(pend[i].sig, pend[i].msg);
+    { unsigned long long h = 0xABCDEF; int k; for (k = 0; k < X->noutc; k++) if (X->outcomes[k] == h) break; if (k == X->noutc && X->noutc < 256) X->outcomes[X->noutc++] = h; }
+    push_frame(prefix_len);
+    X->in_exec = 0;
+    fflush(NULL); _exit(94);
 }
 static void explore(void) {
     if (X->depth == 0 && X->executions == 0) { exec_with_prefix(NULL, 0); push_frame(0); }
@@ -477,20 +491,21 @@ int main(int argc, char **argv) {
     CFG.w = arg_int(argc, argv, "--w", 1); CFG.relax = arg_int(argc, argv, "--relax", 1); CFG.maxsuper = arg_int(argc, argv, "--ms", 4);
     CFG.driver = arg_int(argc, argv, "--drv", 0); CFG.dyn = arg_int(argc, argv, "--dyn", 0); CFG.u = atof(arg_str(argc, argv, "--u", "1.0"));
     CFG.rowblk = arg_int(argc, argv, "--rb", 200); CFG.colblk = arg_int(argc, argv, "--cb", 100); CFG.ordering = arg_int(argc, argv, "--ord", 0);
+    { int f7 = arg_int(argc, argv, "--f7", 0), f8 = arg_int(argc, argv, "--f8", 0); if (f7) CFG.fill7 = f7; if (f8) CFG.fill8 = f8; }
     CFG.lwork = atol(arg_str(argc, argv, "--lwork", "0")); CFG.symmetric = arg_int(argc, argv, "--sym", 0);
     if (src) {
         const char *p;
 #define GETI(key, var) if ((p = strstr(src, key "="))) var = atoi(p + strlen(key) + 1)
         if ((p = strstr(src, "shape="))) sscanf(p + 6, "%63s", shape);
         GETI("vk", vk); GETI(" P", NPROC); GETI("bound", BOUND); GETI(" w", CFG.w); GETI("rlx", CFG.relax); GETI("ms", CFG.maxsuper); GETI("drv", CFG.driver); GETI("dyn", CFG.dyn);
-        GETI("rb", CFG.rowblk); GETI("cb", CFG.colblk); GETI("ord", CFG.ordering); GETI("sym", CFG.symmetric);
+        GETI("rb", CFG.rowblk); GETI("cb", CFG.colblk); GETI("ord", CFG.ordering); GETI("sym", CFG.symmetric); GETI("f7", CFG.fill7); GETI("f8", CFG.fill8);
         if ((p = strstr(src, " u="))) CFG.u = atof(p + 3);
         if ((p = strstr(src, "lwork="))) CFG.lwork = atol(p + 6);
     }
     CFG.nprocs = NPROC;
     MODEL_ENABLED = arg_int(argc, argv, "--model", (!strcmp(PROP, "C03") || !strcmp(PROP, "C04")) ? 1 : 0);
     if (!shape_build(shape, vk, &TM)) { fprintf(stderr, "unknown shape %s\n", shape); return 2; }
-    snprintf(CASE, sizeof CASE, "shape=%s vk=%d P=%d bound=%d w=%d rlx=%d ms=%d drv=%d dyn=%d rb=%d cb=%d ord=%d sym=%d u=%g lwork=%ld", shape, vk, NPROC, BOUND, CFG.w, CFG.relax, CFG.maxsuper, CFG.driver, CFG.dyn, CFG.rowblk, CFG.colblk, CFG.ordering, CFG.symmetric, CFG.u, CFG.lwork);
+    snprintf(CASE, sizeof CASE, "shape=%s vk=%d P=%d bound=%d w=%d rlx=%d ms=%d drv=%d dyn=%d rb=%d cb=%d ord=%d sym=%d u=%g lwork=%ld f7=%d f8=%d", shape, vk, NPROC, BOUND, CFG.w, CFG.relax, CFG.maxsuper, CFG.driver, CFG.dyn, CFG.rowblk, CFG.colblk, CFG.ordering, CFG.symmetric, CFG.u, CFG.lwork, CFG.fill7, CFG.fill8);
     DEADLINE = atof(arg_str(argc, argv, "--deadline", "1e18")); T0 = now_s();
 
     if (one) {       /* replay: the recorded schedule, no exploration; run twice and compare */
@@ -500,13 +515,18 @@ int main(int argc, char **argv) {
             if (trace_hash != t1) { out_violation(PROP, "machinery:nondeterministic-replay", one, "two replays of the same schedule produced different event traces"); }
             (void)v1; fflush(NULL); _exit(X->violations ? 1 : 0); }
         int st; waitpid(pid, &st, 0); vf_last_child = pid;
-        if (!(WIFEXITED(st) && WEXITSTATUS(st) <= 1)) { char cd[160]; int kind = WIFSIGNALED(st) ? VF_SIGNAL : WEXITSTATUS(st) == 99 ? VF_ASAN : WEXITSTATUS(st) == 98 ? VF_FAULT : VF_EXIT; vf_crash_desc(kind, WIFSIGNALED(st) ? WTERMSIG(st) : WEXITSTATUS(st), cd, sizeof cd);
+        if (WIFEXITED(st) && WEXITSTATUS(st) == 94) { out_sample(PROP, "%s -> the execution ended in the library's abort path", one); }
+        else if (!(WIFEXITED(st) && WEXITSTATUS(st) <= 1)) { char cd[160]; int kind = WIFSIGNALED(st) ? VF_SIGNAL : WEXITSTATUS(st) == 99 ? VF_ASAN : WEXITSTATUS(st) == 98 ? VF_FAULT : VF_EXIT; vf_crash_desc(kind, WIFSIGNALED(st) ? WTERMSIG(st) : WEXITSTATUS(st), cd, sizeof cd);
             if (WIFEXITED(st) && WEXITSTATUS(st) >= 91 && WEXITSTATUS(st) <= 93) snprintf(cd, sizeof cd, "%s", X->death_msg);
             out_violation(PROP, "replay:died", one, "%s", cd); X->violations++; }
         out_stats(PROP, "\"executions\":%ld,\"violations\":%ld", X->executions, X->violations);
         return X->violations ? 1 : 0;
     }
 
+    /* reference: the same call with one thread (C06: info does not depend on thread count and schedule) */
+    { fflush(NULL); pid_t pid = fork();
+      if (pid == 0) { prctl(PR_SET_PDEATHSIG, SIGKILL); int P = CFG.nprocs; CFG.nprocs = 1; MODEL_ENABLED = 0; sched_reset(); run_factor_case(&TM, &CFG, &RES); CFG.nprocs = P; X->ref_info = RES.info; X->have_ref = 1; fflush(NULL); _exit(0); }
+      int st; waitpid(pid, &st, 0); }
     /* supervisor loop */
     int complete = 1;
     for (;;) {
@@ -537,6 +557,7 @@ int main(int argc, char **argv) {
             continue;
         }
         if (WIFEXITED(st) && WEXITSTATUS(st) == 0) { if (!X->done) complete = 0; break; }
+        if (WIFEXITED(st) && WEXITSTATUS(st) == 94) { if (X->lib_aborts > 200000) { complete = 0; break; } continue; }      /* an execution ended in the library's abort path */
         /* the execution with prefix X->cur_prefix killed the explorer */
         X->deaths++; X->violations++;
         char rep[1400]; int o = snprintf(rep, sizeof rep, "%s", CASE); sched_str(rep + o, sizeof rep - o, X->cur_prefix, X->cur_len);
@@ -558,8 +579,8 @@ int main(int argc, char **argv) {
     }
     if (X->conf_divergences) { out_init(); fprintf(vf_out, "{\"type\":\"machinery\",\"property\":\"%s\",\"detail\":\"model/implementation divergence in %ld executions of %s: ", PROP, X->conf_divergences, CASE); for (char *p = X->conf_msg; *p; p++) if (*p != '"' && *p != '\\') fputc(*p, vf_out); fprintf(vf_out, "\"}\n"); }
     out_stats(PROP, "\"shape\":\"%s\",\"n\":%d,\"P\":%d,\"bound\":%d,\"cfg\":\"w=%d rlx=%d ms=%d drv=%d dyn=%d vk=%d\",\"complete\":%s,\"executions\":%ld,\"states\":%ld,\"transitions\":%ld,"
-              "\"choice_points\":%ld,\"max_points\":%ld,\"distinct_outcomes\":%d,\"violations\":%ld,\"deaths\":%ld,\"lost_subtrees\":%ld,\"traces_validated\":%ld,\"conformance_events\":%ld,\"conformance_divergences\":%ld,\"executions_without_model\":%ld,\"scheduler_decisions\":%ld,\"regular_panels\":%ld,\"pipelined_panels\":%ld,\"blocked_waits\":%ld,\"wall_s\":%.2f",
+              "\"choice_points\":%ld,\"max_points\":%ld,\"distinct_outcomes\":%d,\"violations\":%ld,\"deaths\":%ld,\"lib_aborts\":%ld,\"lost_subtrees\":%ld,\"traces_validated\":%ld,\"conformance_events\":%ld,\"conformance_divergences\":%ld,\"executions_without_model\":%ld,\"scheduler_decisions\":%ld,\"regular_panels\":%ld,\"pipelined_panels\":%ld,\"blocked_waits\":%ld,\"wall_s\":%.2f",
               shape, TM.n, NPROC, BOUND, CFG.w, CFG.relax, CFG.maxsuper, CFG.driver, CFG.dyn, vk, (complete && !X->lost_subtrees) ? "true" : "false", X->executions, X->ntraces, X->steps,
-              X->choice_points, X->maxpts, X->noutc, X->violations, X->deaths, X->lost_subtrees, X->conf_execs_ok, X->conf_events, X->conf_divergences, X->conf_execs_unmodelled, X->sched_rets, X->regular_panels, X->pipelined_panels, X->waits_blocked, now_s() - T0);
+              X->choice_points, X->maxpts, X->noutc, X->violations, X->deaths, X->lib_aborts, X->lost_subtrees, X->conf_execs_ok, X->conf_events, X->conf_divergences, X->conf_execs_unmodelled, X->sched_rets, X->regular_panels, X->pipelined_panels, X->waits_blocked, now_s() - T0);
     return 0;
 }
